@@ -4,8 +4,8 @@ import re
 import subprocess
 import tempfile
 
-from .. import facts, cg, frontend
-from ..facts import short
+from .. import facts, cg, frontend, ev
+from ..facts import short, strip_cvref
 from ..frontend import NUMERIC
 
 
@@ -51,6 +51,9 @@ def run(chk):
     chk.rule("R1", "no function of the library reads a namespace-scope variable whose dynamic initialisation is unordered "
                    "(an instantiated variable-template specialisation): a user object defined after the includes has no ordering with it")
     chk.rule("R2", "the dynamic initialiser of a PhQ namespace-scope variable reads no other dynamically initialised variable")
+    chk.rule("R4", "no function that takes no unit (or unit-system) enumerator at run time - arithmetic, comparison, printing in the standard unit, "
+                   "Create<U>/StaticValue<U>/ConvertStatically and the Conversion kernels - reads an unordered-initialised table on any path "
+                   "(path-sensitive: each such function that can reach a reader in the call graph is evaluated, with the standard unit where it passes one)")
     chk.rule("R3", "every table family the public API relies on (abbreviations, spellings, consistent units, related systems, conversion dispatch) is classified")
     chk.assumptions += ["user objects are defined at namespace scope after the PhQ includes, as the property states",
                         "the classification is the C++17 standard's; both GCC and Clang implement partially-ordered initialisation of explicitly specialised inline variables in definition order (thorough tier cross-checks the emitted initialiser order)"]
@@ -102,6 +105,7 @@ def run(chk):
                     chk.violated("R2", "%s|%s" % (v["name"], T), "initialiser reads dynamically initialised %s" % bad, short(v["loc"]))
                 else:
                     chk.holds("R2", "%s|%s" % (v["name"], T), "initialiser reads only constants/functions", short(v["loc"]))
+        unit_free_paths(chk, F, T)
     for fam in ("PhQ::Internal::Abbreviations", "PhQ::Internal::Spellings", "PhQ::Internal::ConsistentUnits",
                 "PhQ::Internal::RelatedUnitSystems", "PhQ::Internal::MapOfConversionsToStandard", "PhQ::Internal::MapOfConversionsFromStandard"):
         if fam in seen_templates:
@@ -111,6 +115,53 @@ def run(chk):
     chk.coverage["variable_templates"] = {k: sorted(v) for k, v in seen_templates.items()}
     if chk.tier == "thorough":
         cross_check(chk)
+
+
+def takes_unit(F, f):
+    for p in f["params"]:
+        t = strip_cvref(F.T(p["t"]))
+        if t in F.enums and (t.startswith("PhQ::Unit::") or t == "PhQ::UnitSystem"):
+            return True
+    return False
+
+
+def unit_free_paths(chk, F, T):
+    unordered = {v["id"]: v for v in F.vars.values() if v.get("under_root") and classify(v) == "unordered"}
+    direct = {f["id"] for f in F.fns.values() if "body" in f and cg.gvar_refs(f) & set(unordered)}
+    rev = {}
+    for f in F.fns.values():
+        if "body" in f or f.get("inits"):
+            for c in cg.callees(f):
+                rev.setdefault(c, set()).add(f["id"])
+    reach, stack = set(), list(direct)
+    while stack:
+        i = stack.pop()
+        if i in reach:
+            continue
+        reach.add(i)
+        stack.extend(rev.get(i, ()))
+    n = 0
+    for i in sorted(reach):
+        f = F.fns[i]
+        if "body" not in f or not f["loc"].startswith(frontend.INC) or takes_unit(F, f) or f.get("qname", "").startswith("phq_verif"):
+            continue
+        if f["kind"] == "lambda" or f.get("deleted") or f.get("invalid"):
+            continue
+        n += 1
+        inst = "%s(%s)|%s" % (tmpl_name(f.get("qname", f["name"])), ", ".join(strip_cvref(t).replace("PhQ::", "") for t in F.param_types(f)), T)
+        loc = short(f.get("def_loc", f["loc"]))
+        try:
+            E = ev.Evaluator(F)
+            E.run_symbolic(f)
+            hit = sorted(unordered[v]["name"] for v in E.gvar_reads if v in unordered)
+            if hit:
+                chk.violated("R4", inst, "takes no unit at run time but reads %s (unordered dynamic initialisation): evaluating it in the initialiser of a "
+                                         "namespace-scope object may run before the table exists" % hit[:2], loc)
+            else:
+                chk.holds("R4", inst, "can reach a table reader in the call graph, but every path passes the standard unit: no table is read", loc)
+        except ev.Inconclusive as x:
+            chk.inconclusive("R4", inst, str(x), loc)
+    chk.coverage.setdefault("unit_free_functions_evaluated", {})[T] = n
 
 
 WITNESS = r'''
